@@ -68,6 +68,16 @@ func evalC07(h history, rec *hx.Rec) error {
 	if zero.Equal(&zero) {
 		return fmt.Errorf("Equal(zero value, zero value) is true")
 	}
+	// the batch serialiser over the whole (mixed-representation) pool gives the same canonical bytes
+	var all [][32]byte
+	if perr := hx.Try(func() { all = banderwagon.ElementsToBytes(pool...) }); perr != nil {
+		return perr
+	}
+	for i := range pool {
+		if len(all) != n || all[i] != enc[i] {
+			return fmt.Errorf("ElementsToBytes over the pool of %d elements: entry %d = %x, Bytes() = %x", n, i, all[i], enc[i])
+		}
+	}
 	eqDiffRep, uneq := 0, 0
 	for i := 0; i < n; i++ {
 		for j := i + 1; j < n; j++ {
@@ -110,7 +120,7 @@ func TestC07(t *testing.T) {
 	s := hx.Start(t, "C07")
 	defer s.Finish()
 	s.Guard(func() { Cfg() })
-	c07Part.Run(s, hx.PerShard(hx.Pick(64000, 800000)))
+	c07Part.Run(s, hx.PerShard(hx.Pick(40000, 800000)))
 }
 
 // ------------------------------------------------------------------ C11 map to scalar field
@@ -224,5 +234,5 @@ func TestC11(t *testing.T) {
 	s := hx.Start(t, "C11")
 	defer s.Finish()
 	s.Guard(func() { Cfg() })
-	c11Part.Run(s, hx.PerShard(hx.Pick(64000, 800000)))
+	c11Part.Run(s, hx.PerShard(hx.Pick(40000, 800000)))
 }
